@@ -289,6 +289,27 @@ class Provenance:
             # attribute of another object: element of a table etc.
             if e.attr in ("path",) and isinstance(e.value, ast.Name):
                 return self.roots(e.value, f, depth + 1, seen)
+            # an option other than the well-known ones: follow what is stored into `<...>.options.<attr>` anywhere in lian
+            dd = dotted(e) or ""
+            if ".options." in "." + dd or dd.startswith("options."):
+                out = set()
+                for mod in self.model.modules.values():
+                    for g in mod.all_funcs():
+                        for n in walk_no_nested(g.node):
+                            if isinstance(n, ast.Assign) and len(n.targets) == 1 and isinstance(n.targets[0], ast.Attribute) \
+                                    and n.targets[0].attr == e.attr and (dotted(n.targets[0]) or "").endswith("options." + e.attr):
+                                v = n.value
+                                if isinstance(v, ast.Name) and v.id in g.params:
+                                    # a parameter: its default value, when it has one, is what callers that omit it pass
+                                    a_ = g.node.args
+                                    pos = a_.args[len(a_.args) - len(a_.defaults):]
+                                    dflt = {x.arg: d_ for x, d_ in zip(pos, a_.defaults)}
+                                    if v.id in dflt:
+                                        out |= self.roots(dflt[v.id], g, depth + 1, seen)
+                                        continue
+                                out |= self.roots(v, g, depth + 1, seen)
+                if out:
+                    return out
             return {f"unknown:attr {norm(e)}"}
         if isinstance(e, ast.Name) and e.id == "__file__":
             return {"repo"}
